@@ -531,21 +531,32 @@ type Rec struct {
 	B []byte            `json:"b"`
 	L []string          `json:"l"`
 	M map[string]string `json:"m"`
-	P *int64            `json:"p"`
-	N *Inner            `json:"n"`
+	// map values of the same types as the pointer targets below: whatever the map codec allocates or keeps for a
+	// value shares an arena with them
+	MI map[string]int64 `json:"mi"`
+	MN map[string]Inner `json:"mn"`
+	P  *int64           `json:"p"`
+	N  *Inner           `json:"n"`
 }
 
 var recSchema = ref.Record("Rec",
 	ref.F("s", ref.Prim("string")), ref.F("b", ref.Prim("bytes")), ref.F("l", ref.Array(ref.Prim("string"))), ref.F("m", ref.Map(ref.Prim("string"))),
+	ref.F("mi", ref.Map(ref.Prim("long"))), ref.F("mn", ref.Map(ref.Record("InnerM", ref.F("v", ref.Prim("string"))))),
 	ref.F("p", ref.Union(ref.Prim("null"), ref.Prim("long"))), ref.F("n", ref.Union(ref.Prim("null"), ref.Record("Inner", ref.F("v", ref.Prim("string"))))))
 
-func recDatums() []ref.Datum {
+func recDatums(order int) []ref.Datum {
 	full := func(i int) ref.Datum {
 		tag := fmt.Sprintf("r%d-", i)
 		return ref.DRecord(ref.DString(tag+strings.Repeat("s", 20+i)), ref.DBytes(tag+"bytes"), ref.DArray(ref.DString(tag+"l0"), ref.DString(tag+"l1-"+strings.Repeat("x", 40))),
-			ref.DMap([]string{tag + "k"}, []ref.Datum{ref.DString(tag + "v")}), ref.DUnion(1, ref.DLong(int64(1000+i))), ref.DUnion(1, ref.DRecord(ref.DString(tag+"inner"))))
+			ref.DMap([]string{tag + "k"}, []ref.Datum{ref.DString(tag + "v")}),
+			ref.DMap([]string{tag + "a", tag + "b"}, []ref.Datum{ref.DLong(int64(2000 + i)), ref.DLong(int64(3000 + i))}),
+			ref.DMap([]string{tag + "n"}, []ref.Datum{ref.DRecord(ref.DString(tag + "mapped-inner"))}), ref.DUnion(1, ref.DLong(int64(1000+i))), ref.DUnion(1, ref.DRecord(ref.DString(tag+"inner"))))
 	}
-	empty := ref.DRecord(ref.DString(""), ref.DBytes(""), ref.DArray(), ref.DMap(nil, nil), ref.DUnion(0, ref.DNull()), ref.DUnion(0, ref.DNull()))
+	empty := ref.DRecord(ref.DString(""), ref.DBytes(""), ref.DArray(), ref.DMap(nil, nil), ref.DMap(nil, nil), ref.DMap(nil, nil), ref.DUnion(0, ref.DNull()), ref.DUnion(0, ref.DNull()))
+	if order == 1 {
+		// the empty record second: the third record is decoded into whatever bank the first one gave back
+		return []ref.Datum{full(0), empty, full(2), full(3)}
+	}
 	return []ref.Datum{full(0), full(1), empty, full(3)}
 }
 
@@ -556,10 +567,11 @@ type retained struct {
 	open    bool
 }
 
-func runE2(c *fw.Ctx, codec string, comp []int, mode int, poolBound int) {
-	ds := recDatums()
+func runE2(c *fw.Ctx, codec string, comp []int, mode int, poolBound int, order int) {
+	ds := recDatums(order)
 	sc := filedrv.SchemaCase{Name: "Rec", Schema: recSchema, Type: reflect.TypeOf(Rec{})}
 	f := filedrv.Build(sc, codec, comp, ds)
+	f.Name += fmt.Sprintf("/order%d", order)
 	locus := "file|" + codec
 	var execs, points int64
 	obs := map[string]bool{}
@@ -700,8 +712,10 @@ func tasks(tier string) []task {
 	for _, codec := range []string{"null", "deflate", "snappy"} {
 		for _, comp := range [][]int{{2, 1, 1}, {1, 1, 2}, {4}, {1, 3}} {
 			for mode := 0; mode < 2; mode++ {
-				codec, comp, mode := codec, comp, mode
-				ts = append(ts, task{fmt.Sprintf("file %s %v %s", codec, comp, filedrv.ModeName(mode)), func(c *fw.Ctx) { runE2(c, codec, comp, mode, poolBound) }})
+				for order := 0; order < 2; order++ {
+					codec, comp, mode, order := codec, comp, mode, order
+					ts = append(ts, task{fmt.Sprintf("file %s %v %s order %d", codec, comp, filedrv.ModeName(mode), order), func(c *fw.Ctx) { runE2(c, codec, comp, mode, poolBound, order) }})
+				}
 			}
 		}
 	}
@@ -718,7 +732,7 @@ func init() {
 			if tier == "thorough" {
 				depth, banks, pb = 7, 3, 3
 			}
-			return fmt.Sprintf("built with the sync→zzvsync overlay so that sync.Pool recycling is an explored choice. (E1) explicit-state BFS over sequences (depth %d) of real ResourceBank/ReadBuf operations {alloc(int64), alloc(struct with pointer and string), 17×alloc (arena growth), ToString/NextAsString of 2 and 300 bytes (string store regrowth), Close(bank i), ExtractResourceBank with Pool.Get answer ∈ {new, each of the 2 most recently pooled banks}, recycle (the ReadBuf's bank goes through Close and the pool and comes back)} over the ReadBuf's bank and <=%d extracted banks; successor = replay on a fresh world + one operation; canonical state = per physical bank (role, fill levels, high-water classes) and pool order; shadow-heap model: after EVERY step a new allocation must be all-zero and disjoint (address ranges) from every live allocation and string of every open bank, and every live allocation and string must still hold its pattern. (E2) ReadFile over 4-record files (strings, bytes, slices, maps, pointers, nested pointer; an all-empty record after full ones) × 3 codecs × 4 block partitions × 2 reader modes, with the callback's retention policy (keep / close own bank / close the bank of any earlier open record) explored exhaustively and Pool.Get answers with <=%d deviations: every retained shallow copy whose bank is open must equal the deep copy taken at delivery, at every later callback, at the end, and again after a second ReadFile (whose banks are closed at once) has run; distinct_nontrivial = distinct histories / choice vectors checked", depth, banks, pb)
+			return fmt.Sprintf("built with the sync→zzvsync overlay so that sync.Pool recycling is an explored choice. (E1) explicit-state BFS over sequences (depth %d) of real ResourceBank/ReadBuf operations {alloc(int64), alloc(struct with pointer and string), 17×alloc (arena growth), ToString/NextAsString of 2 and 300 bytes (string store regrowth), Close(bank i), ExtractResourceBank with Pool.Get answer ∈ {new, each of the 2 most recently pooled banks}, recycle (the ReadBuf's bank goes through Close and the pool and comes back)} over the ReadBuf's bank and <=%d extracted banks; successor = replay on a fresh world + one operation; canonical state = per physical bank (role, fill levels, high-water classes) and pool order; shadow-heap model: after EVERY step a new allocation must be all-zero and disjoint (address ranges) from every live allocation and string of every open bank, and every live allocation and string must still hold its pattern. (E2) ReadFile over 4-record files (strings, bytes, slices, maps of strings / longs / records, pointers to long and to a record — map values and pointer targets of the same types; an all-empty record as third or as second of the four) × 3 codecs × 4 block partitions × 2 reader modes, with the callback's retention policy (keep / close own bank / close the bank of any earlier open record) explored exhaustively and Pool.Get answers with <=%d deviations: every retained shallow copy whose bank is open must equal the deep copy taken at delivery, at every later callback, at the end, and again after a second ReadFile (whose banks are closed at once) has run; distinct_nontrivial = distinct histories / choice vectors checked", depth, banks, pb)
 		},
 		Assumptions: []string{
 			"double Close of one bank and use after Close are API misuse and excluded from the alphabet",
